@@ -210,7 +210,30 @@ def _elem_taken_by(obj: Optional[ast.expr], subj: Optional[str], k: ast.expr, fn
     if isinstance(obj, ast.Call) and callee_name(obj) in ("getitem", "getitem_async") and len(obj.args) == 2 and path_of(obj.args[0]) == subj:
         # getitem(subject, self.index) with K = normalised index of self.index
         if ast.unparse(obj.args[1]) == ast.unparse(k):
-            return True
+            # fetching with the *normalised* index is only sound when that index has been
+            # shown to be in range: a normaliser may return a value that is still negative
+            # (or wrapped), and Python would happily index with it
+            normalised = any(
+                isinstance(n, ast.Assign) and path_of(n.targets[0]) == path_of(k) and isinstance(n.value, ast.Call)
+                and callee_name(n.value) == "_normalized_index"
+                for n in ast.walk(fn.node)
+            )
+            if not normalised:
+                return True
+            kp = path_of(k) or ""
+
+            def refine(test: ast.expr, branch: bool) -> List[str]:
+                if isinstance(test, ast.Compare) and len(test.ops) == 1 and path_of(test.left) == kp:
+                    c = test.comparators[0]
+                    if isinstance(c, ast.Constant) and c.value == 0:
+                        if (isinstance(test.ops[0], ast.Lt) and not branch) or (isinstance(test.ops[0], ast.GtE) and branch):
+                            return ["nonneg@" + kp]
+                return []
+
+            from .common import must_flow
+
+            st = must_flow(fn.node, refine_events=refine).at.get(id(call)) or frozenset()
+            return "nonneg@" + kp in st
         for n in ast.walk(fn.node):
             if isinstance(n, ast.Assign) and path_of(n.targets[0]) == path_of(k) and isinstance(n.value, ast.Call):
                 if callee_name(n.value) == "_normalized_index" and n.value.args and path_of(n.value.args[0]) == subj:
@@ -224,6 +247,36 @@ def r3_2(ctx: Ctx) -> RuleResult:
     dec = ctx.repo.require_func("Parser._decode_string_literal")
     enc_chain = [c for c in outermost_replace_chains(ser.node)]
     dec_chain = [c for c in outermost_replace_chains(dec.node)]
+    if not enc_chain:
+        # second accepted idiom of the writer: value.translate(<constant table>)
+        tr = [c for c in calls(ser.node, "translate")]
+        if len(tr) == 1 and tr[0].args:
+            from sa.consteval import NotConst
+
+            try:
+                table = ctx.folder.eval_in(tr[0].args[0], ser.module)
+            except NotConst as err:
+                raise AnalysisError(f"R3.2: the escape table of canonical_string cannot be folded: {err}") from err
+            if not isinstance(table, dict):
+                raise AnalysisError("R3.2: canonical_string translates with something that is not a constant table")
+            keys = {k if isinstance(k, int) else ord(k) for k in table}
+            need = {ord("'"), ord("\\")} | set(range(0x20))
+            missing = sorted(need - keys)
+            named = {8: "\\b", 9: "\\t", 10: "\\n", 12: "\\f", 13: "\\r", 39: "\\'", 92: "\\\\"}
+            wrong = []
+            for k in sorted(keys & need):
+                v = table.get(k, table.get(chr(k)))
+                ok = v == named.get(k) or (isinstance(v, str) and v.lower() == f"\\u{k:04x}")
+                if not ok:
+                    wrong.append(k)
+            if missing or wrong:
+                shown = ", ".join(f"U+{c:04X}" for c in (missing + wrong)[:6])
+                rr.bad(ser, tr[0], f"the canonical escape table leaves {len(missing)} character(s) unescaped and maps "
+                       f"{len(wrong)} wrongly ({shown}...): a normalized path containing such a character is not "
+                       "valid RFC 9535 text and does not parse back", construct=f"escape table lacks {shown}")
+            else:
+                rr.ok(ser.loc(tr[0]), "canonical_string escapes quote, backslash and every control character")
+            return rr
     if len(enc_chain) != 1 or len(dec_chain) != 1:
         raise AnalysisError("R3.2: expected exactly one replace chain in canonical_string and in _decode_string_literal")
     ecall, ebase, epairs = enc_chain[0]
